@@ -52,7 +52,8 @@ theorem C09_declared_limit (c : Conn) (n M : Nat) (hrs : c.rs = .body (some n) f
 /-- **Undeclared length, limit M** (below 2^64 − 1): the stream is read to its end but never more than
     M + 1 bytes are written to disk; accepted iff L ≤ M, and then the body is the whole stream; refused
     with `BodyTooLong` iff L > M. -/
-theorem C09_undeclared_limit (c : Conn) (M : Nat) (hM : M + 1 ≤ 2 ^ 64 - 1) (hrs : c.rs = .body none false false false) :
+theorem C09_undeclared_limit (c : Conn) (M : Nat) (hM : M + 1 ≤ 2 ^ 64 - 1) (hrs : c.rs = .body none false false false)
+    (hne : c.inputErr = false) :
     (c.input.length ≤ M → (readBodyToFile c M {}).2 = .ok (.file c.created c.input)) ∧
     (M < c.input.length → (readBodyToFile c M {}).2 = .error .bodyTooLong) ∧
     (c.input.take (min (M + 1) (2 ^ 64 - 1))).length ≤ M + 1 := by
@@ -61,20 +62,37 @@ theorem C09_undeclared_limit (c : Conn) (M : Nat) (hM : M + 1 ≤ 2 ^ 64 - 1) (h
   · intro h
     have ht : c.input.take (M + 1) = c.input := List.take_of_length_le (by omega)
     have : ¬ M < c.input.length := by omega
-    simp [readBodyToFile, hrs, storeUpload, newFile, hmin, ht, this]
+    simp [readBodyToFile, hrs, storeUpload, newFile, hmin, ht, this, hne]
   · intro h
     have : M < min (M + 1) c.input.length := by omega
-    simp [readBodyToFile, hrs, storeUpload, newFile, dropFile, hmin, this]
+    simp [readBodyToFile, hrs, storeUpload, newFile, dropFile, hmin, this, hne]
   · rw [hmin, List.length_take]; omega
 
 /-- **The largest limit, M = 2^64 − 1** (repaired code, `saturating_add`): every undeclared-length body
     shorter than 2^64 − 1 bytes is accepted whole. -/
-theorem C09_max_limit (c : Conn) (hrs : c.rs = .body none false false false) (hlen : c.input.length < 2 ^ 64 - 1) :
+theorem C09_max_limit (c : Conn) (hrs : c.rs = .body none false false false) (hlen : c.input.length < 2 ^ 64 - 1)
+    (hne : c.inputErr = false) :
     (readBodyToFile c (2 ^ 64 - 1) {}).2 = .ok (.file c.created c.input) := by
   have hmin : min (2 ^ 64 - 1 + 1) (2 ^ 64 - 1) = 2 ^ 64 - 1 := by omega
   have ht : c.input.take (2 ^ 64 - 1) = c.input := List.take_of_length_le (by omega)
   have : ¬ 2 ^ 64 - 1 < c.input.length := by omega
-  simp [readBodyToFile, hrs, storeUpload, newFile, hmin, ht, this]
+  simp [readBodyToFile, hrs, storeUpload, newFile, hmin, ht, this, hne]
+
+/-- **A reset is not the end of a body.**  When the client's stream ends with a socket error before the limit is reached,
+    an upload of undeclared length is refused with `Truncated` — the fragment received so far is never handed over as
+    the body (and by `C10.readBodyToFile_files` its file is gone). -/
+theorem C09_reset_is_not_eof (c : Conn) (M : Nat) (fs : FsFault) (hrs : c.rs = .body none false false false)
+    (he : c.inputErr = true) (hshort : c.input.length < min (M + 1) (2 ^ 64 - 1)) :
+    (∃ e, (readBodyToFile c M fs).2 = .error e) ∧ (readBodyToVec c).2 = .error .truncated := by
+  refine ⟨?_, ?_⟩
+  · unfold readBodyToFile
+    simp only [hrs, Bool.or_self, Bool.false_eq_true, if_false, he, hshort, decide_true, Bool.and_self, if_true]
+    unfold storeUpload
+    split
+    · exact ⟨_, rfl⟩
+    · simp only []
+      split <;> exact ⟨_, rfl⟩
+  · simp [readBodyToVec, hrs, he]
 
 /-- The pinned tree computed `max_len + 1` in `u64`: for M = 2^64 − 1 that overflows (a panic with
     overflow checks, 0 — an empty `take` — without), while `saturating_add` keeps the limit. -/
@@ -83,6 +101,10 @@ theorem C09_legacy_overflow :
   omega
 
 /-! ### Resource bounds, for every state, input, fault and handler behaviour -/
+
+theorem bad_none (b1 b2 : Prop) [Decidable b1] [Decidable b2] (x y : HttpError)
+    (h : (if b1 then some x else if b2 then some y else none) = none) : ¬ b2 := by
+  by_cases h1 : b1 <;> by_cases h2 : b2 <;> simp [h1, h2] at h ⊢
 
 theorem writeResponse_written (c : Conn) (r : Response) : (writeResponse c r).1.written = c.written := by
   unfold writeResponse
@@ -197,9 +219,8 @@ theorem C09_accepted_within_limit (c : Conn) (M : Nat) (fs : FsFault) (id : Nat)
           obtain ⟨hb, hbad⟩ := hstore _ _ _ h
           refine ⟨?_, fun n' e' hrs' => by cases hrs'⟩
           rw [hb]
-          by_cases hlt : M < (List.take (min (M + 1) (2 ^ 64 - 1)) (if e = true then writeContinue c else (c, Except.ok ())).1.input).length
-          · rw [if_pos hlt] at hbad; cases hbad
-          · omega
+          have hnl := bad_none _ _ _ _ hbad
+          omega
 
 /-- **Memory bound.**  In the body stage of an exchange whose connection state matches the request
     (as `read_request` leaves it), a body handed to the handler in memory has at most S =
